@@ -75,6 +75,14 @@ structure Leaf where
   carries : Bool
   cls : String
   expo : List (String × Expo)
+  /-- scale of the unit the handler really attaches, divided by `Π scale_g ^ e_g`, observed by the
+      translator under an assignment of operand units that CANCEL across groups (same dimension in
+      different symbols: products and quotients simplify with a numeric coefficient).  A handler may attach
+      the unsimplified product (`a.units * b.units`) or a simplified unit, but since it hands the kernel's
+      numbers on unchanged, the scale of its label must be the product of the operand scales: `kappa = 1`.
+      (`__array_ufunc__` simplifies and multiplies the numbers by the coefficient; a handler that takes only
+      the unit of `_multiply_units(au, bu)` has `kappa = 1 / coefficient`.) -/
+  kappa : Rat
   deriving DecidableEq, Repr, Inhabited
 
 /-- one call form of one handler -/
